@@ -55,6 +55,10 @@ type history struct {
 	Seed uint64   `json:"pool_seed"`
 }
 
+// loggerInputs is the number of pool inputs the loggerpanic / loggerafter
+// call kinds draw from.
+const loggerInputs = 12
+
 func TestC08(t *testing.T) {
 	hx.Main(t, "C08", func(rec *hx.Recorder) {
 		seed := hx.Seed()
@@ -83,7 +87,7 @@ func TestC08(t *testing.T) {
 
 		// fresh-process baselines
 		var all []ops.Op
-		for _, k := range ops.OpKinds {
+		for _, k := range ops.HistoryKinds {
 			if strings.HasPrefix(k, "encode") {
 				for i := range pool.Specs {
 					all = append(all, ops.Op{Kind: k, Idx: i}, ops.Op{Kind: k, Idx: i, BE: true})
@@ -91,6 +95,9 @@ func TestC08(t *testing.T) {
 				continue
 			}
 			for i := range pool.Bytes {
+				if strings.HasPrefix(k, "logger") && i >= loggerInputs {
+					break // these two kinds use the first few inputs only
+				}
 				all = append(all, ops.Op{Kind: k, Idx: i})
 			}
 		}
@@ -221,7 +228,7 @@ func TestC08(t *testing.T) {
 				}
 			}
 			actions := map[string]func(*rapid.T){}
-			for _, k := range ops.OpKinds {
+			for _, k := range ops.HistoryKinds {
 				k := k
 				actions[k] = func(rt *rapid.T) {
 					op := ops.Op{Kind: k}
@@ -230,6 +237,9 @@ func TestC08(t *testing.T) {
 						op.BE = d.Bool("be")
 					} else {
 						op.Idx = d.Int(0, len(pool.Bytes)-1, "input")
+						if strings.HasPrefix(k, "logger") {
+							op.Idx %= loggerInputs
+						}
 					}
 					do(op)
 				}
